@@ -531,29 +531,54 @@ impl<R: Read + Seek> Seek for CompressionLayerReader<'_, R> {
 struct WriterWithCount<W: Write> {
     inner: W,
     pos: u32,
+    /// First error reported by `inner`
+    error: Option<io::Error>,
 }
 
 impl<W: Write> WriterWithCount<W> {
     const fn new(inner: W) -> Self {
-        Self { inner, pos: 0 }
+        Self {
+            inner,
+            pos: 0,
+            error: None,
+        }
     }
 
     fn into_inner(self) -> W {
         self.inner
     }
+
+    /// Get back the inner writer, unless it reported an error: closing a
+    /// `brotli::CompressorWriter` (`into_inner`) discards the errors of the
+    /// last writes it makes
+    fn into_inner_checked(self) -> io::Result<W> {
+        match self.error {
+            Some(err) => Err(err),
+            None => Ok(self.inner),
+        }
+    }
 }
 
 impl<W: Write> Write for WriterWithCount<W> {
     fn write(&mut self, buf: &[u8]) -> io::Result<usize> {
-        self.inner.write(buf).inspect(|&i| {
-            match u32::try_from(i) {
-                Ok(value) => self.pos += value,
-                Err(_) => {
-                    // Handle the error explicitly
-                    let _ = io::Error::new(io::ErrorKind::InvalidData, "Integer conversion failed");
+        self.inner
+            .write(buf)
+            .inspect(|&i| {
+                match u32::try_from(i) {
+                    Ok(value) => self.pos += value,
+                    Err(_) => {
+                        // Handle the error explicitly
+                        let _ =
+                            io::Error::new(io::ErrorKind::InvalidData, "Integer conversion failed");
+                    }
                 }
-            }
-        })
+            })
+            .inspect_err(|err| {
+                // Keep the first failure (a retried `Interrupted` is not one)
+                if err.kind() != io::ErrorKind::Interrupted && self.error.is_none() {
+                    self.error = Some(io::Error::new(err.kind(), err.to_string()));
+                }
+            })
     }
 
     fn flush(&mut self) -> io::Result<()> {
@@ -644,7 +669,7 @@ impl<'a, W: 'a + InnerWriterTrait> LayerWriter<'a, W> for CompressionLayerWriter
                 let inner_count = compress.into_inner();
                 self.compressed_sizes.push(inner_count.pos);
                 last_block_size = written;
-                inner_count.into_inner()
+                inner_count.into_inner_checked()?
             }
             CompressionLayerWriterState::Empty => {
                 // Should never happens, except if an error already occurs before
@@ -723,7 +748,8 @@ impl<'a, W: 'a + InnerWriterTrait> Write for CompressionLayerWriter<'a, W> {
                 if written == UNCOMPRESSED_DATA_SIZE {
                     let inner_count = compress.into_inner();
                     self.compressed_sizes.push(inner_count.pos);
-                    self.state = CompressionLayerWriterState::Ready(inner_count.into_inner());
+                    self.state =
+                        CompressionLayerWriterState::Ready(inner_count.into_inner_checked()?);
                     // Start a new block, fill it with new values!
                     return self.write(buf);
                 }
